@@ -179,6 +179,9 @@ def _rexpr(e: ast.AST, env: Dict[str, str]) -> str:
         return f"({_rexpr(e.left, env)} {op} {_rexpr(e.right, env)})"
     if isinstance(e, ast.UnaryOp) and isinstance(e.op, ast.USub):
         return f"(-{_rexpr(e.operand, env)})"
+    if isinstance(e, ast.BinOp) and isinstance(e.op, ast.Pow) and isinstance(e.right, ast.Constant) and e.right.value == 2:
+        a = _rexpr(e.left, env)   # torch evaluates x**2 as x*x
+        return f"({a} * {a})"
     if isinstance(e, ast.Call):
         fn = ast.unparse(e.func)
         if fn in _CALLS and len(e.args) == 1:
